@@ -3,11 +3,11 @@ CONSTANTS
   QosChoices <- QosOne
   LateChoices = {"none"}
   ThirdChoices = {FALSE}
-  DelChoices = {"none"}
-  BlackoutChoices = {1}
-  PostChoices = {"none"}
+  DelChoices = {"R", "W"}
+  BlackoutChoices = {0}
+  PostChoices = {"W2", "R3"}
   MatchOnCreate = TRUE
-  RematchFix = FALSE
+  RematchFix = TRUE
   GenK = 1000000
 INVARIANTS Inv_MatchedSound Inv_SeenOnlyOfKnown Inv_TypeOK
 PROPERTIES Live_EventuallyMatched Live_DeleteSeen
